@@ -3,8 +3,9 @@ import Nv.Model.C01
 import Nv.Gen.C01
 /-!
 oracle_c01 — line protocol (one result line per input line; the first line of a script is `new …`):
-  `new <single|wide|xhash> <rw ≥ 1> <prime>`  → `ok`            (re)initialises; the routing of the sharded
-                                                                 variants is not observable, all three share the model
+  `new <single|wide|xhash> <rw ≥ 1 | d> <prime>` → `ok`         (re)initialises; `d` = the package default ratio
+                                                                 (regenerated `Nv.Gen.C01.defaultRatio`); the routing of the
+                                                                 sharded variants is not observable, all three share the model
   `acqR <t> <key>` / `acqW <t> <key>`         → `granted` | `parked`          fresh caller id `t`
   `acqRx <t> <key>` / `acqWx <t> <key>`       → `granted` | `ctx woke=[…]`    same with an already cancelled context
   `rel <t>`                                   → `ok woke=[…]`                 `t` must be inside; woke = callers admitted by it
@@ -92,7 +93,7 @@ def stepLine (o : OSt) (line : String) : OSt × String :=
   match words line with
   | ["new", v, rw, prime] =>
     if v != "single" && v != "wide" && v != "xhash" then (o, "bad-op") else
-    match natCanon rw 6, natCanon prime 4 with
+    match (if rw == "d" then some Nv.Gen.C01.defaultRatio else natCanon rw 6), natCanon prime 4 with
     | some rw, some _ => if rw == 0 then (o, "bad-op") else ({ OSt.empty with started := true, rw := rw }, "ok")
     | _, _ => (o, "bad-op")
   | ["relx", t, u] =>
